@@ -212,6 +212,64 @@ fn concurrent(rep: &mut Report, rng: &mut Rng, idx: u64) {
     }
 }
 
+/// A roller that counts how often a rotation is requested and fails the first `fail_first` requests.
+#[derive(Debug)]
+struct CountingRoller {
+    calls: Arc<Mutex<Vec<u64>>>,
+    fail_first: usize,
+}
+
+impl log4rs::append::rolling_file::policy::compound::roll::Roll for CountingRoller {
+    fn roll(&self, file: &std::path::Path) -> anyhow::Result<()> {
+        let mut c = self.calls.lock().unwrap();
+        c.push(std::fs::metadata(file).map(|m| m.len()).unwrap_or(u64::MAX));
+        if c.len() <= self.fail_first {
+            anyhow::bail!("scripted failure of rotation request #{}", c.len());
+        }
+        drop(c);
+        std::fs::remove_file(file).map_err(Into::into)
+    }
+}
+
+/// The one rotation the trigger may ask for fails (a blocked archive path ...): it is not asked for again.
+fn failed_startup_roll(rep: &mut Report, rng: &mut Rng, _idx: u64) {
+    use log4rs::append::rolling_file::policy::compound::trigger::onstartup::OnStartUpTrigger;
+    let sc = Scratch::new("c17f");
+    let min: u64 = *rng.pick(&[0u64, 1, 10]);
+    let pre = min as usize + rng.usize_below(50);
+    std::fs::write(sc.join(ACTIVE), pre_content(pre)).unwrap();
+    let calls = Arc::new(Mutex::new(vec![]));
+    let fail_first = *rng.pick(&[0usize, 1, 1, 1]);
+    let roller = CountingRoller { calls: calls.clone(), fail_first };
+    let app = match build_appender(&sc.path, true, Box::new(ChunkEnc { pieces: 1 }), Box::new(OnStartUpTrigger::new(min)), Box::new(roller)) {
+        Ok(a) => a,
+        Err(e) => {
+            rep.inconclusive(&format!("cannot build a rolling appender: {}", e));
+            return;
+        }
+    };
+    let n = 2 + rng.usize_below(20);
+    let mut oks = vec![];
+    for seq in 0..n as u32 {
+        let a = append_frame(&app, 1, seq, *rng.pick(&[0usize, 5, 100]), true);
+        if let Some(p) = take_panic() {
+            rep.violation("C17:panic:append", json!({"min_size": min, "pre_existing_size": pre, "panic": p}));
+            return;
+        }
+        oks.push(a.ok);
+    }
+    let c = calls.lock().unwrap().clone();
+    rep.case(&format!("failed-startup|{}|{}|{}|{}", min, pre, fail_first, n), true);
+    rep.count("histories_with_a_counting_roller", 1);
+    if fail_first > 0 {
+        rep.count("startup_rotations_that_failed", 1);
+    }
+    if c.len() != 1 {
+        rep.violation("C17:more-than-one-rotation-requested", json!({"min_size": min, "pre_existing_size": pre, "records": n,
+            "the_first_request_failed": fail_first > 0, "rotation_requests_with_the_file_size_at_the_time": c, "append_results_ok": oks}));
+    }
+}
+
 pub fn run(rep: &mut Report) {
     hooks::install();
     rep.rule = "rolling appender with the real OnStartUpTrigger: min_size in {0,1,2,100,1024} x pre-existing file absent/0/min-1/min/min+1/random \
@@ -223,6 +281,7 @@ pub fn run(rep: &mut Report) {
     rep.assume("the start-up size is the size of the file right after the appender was built (after truncation in truncate mode)");
     let thorough = rep.tier == "thorough";
     run_cases(rep, "single", if thorough { 30_000 } else { 5_000 }, single);
+    run_cases(rep, "failed-startup", if thorough { 3000 } else { 400 }, failed_startup_roll);
     let saved = std::env::var("L4V_JOBS").ok();
     std::env::set_var("L4V_JOBS", "3");
     run_cases(rep, "concurrent", if thorough { 2_000 } else { 200 }, concurrent);
